@@ -41,6 +41,10 @@ import (
 //	inflightrl <va> <K> | ok o1=<A|P|D> o2=<A|P|D> o3=<A|P|D> d1=<0|1>
 //	     receiver with 2 inbound slots, one held by the harness: sender A (version va) offers [K], accepted, stream open and
 //	     stalled; a version-0 peer offers [K] while NO slot is free; the harness frees its slot; a version-1 peer offers [K]
+//	shared <ownR> <keys> <flagsA> <flagsB> <contents> | ok enqA=<keys>/<contents> enqB=<keys>/<contents> list=<keys>
+//	     ONE gossip batch offered to two peers the way GossipAndReturnPeers builds it: two TransientOfferRequests sharing the
+//	     same Contents slice; receiver A answers first (its verdicts follow flagsA), its reply is processed and streamed, then
+//	     receiver B's; what each receiver enqueues, and the shared list's keys afterwards
 //	race <n> | ok second=<codes>        two back-to-back version-1 offers of the same fresh keys, codes of the second reply
 func init() { registry["C09"] = runC09 }
 
@@ -886,6 +890,60 @@ func c09inflightRL(c *Ctx, va int, K []byte) {
 	c.Emit("%s | ok o1=%s o2=%s o3=%s d1=%d", head, o1, o2, o3, d1)
 }
 
+// c09shared: one content list, two peers (the second request must not see what the first peer's verdicts were).
+func c09shared(c *Ctx, ownR []byte, keys [][]byte, flagsA, flagsB string, contents [][]byte) {
+	O := c09newNode(c, []byte{0, 1}, 50, 8, 255)
+	defer O.n.Stop()
+	RA := c09nodeFor(c, ownR, 50, 8, keys, flagsA)
+	defer RA.n.Stop()
+	RB := c09nodeFor(c, ownR, 50, 8, keys, flagsB)
+	defer RB.n.Stop()
+	ksA := c09applyFlags(RA, keys, flagsA)
+	ksB := c09applyFlags(RB, keys, flagsB)
+	_, fa := c09keyFields(ksA)
+	_, fb := c09keyFields(ksB)
+	head := fmt.Sprintf("shared %s %s %s %s %s", hx(ownR), hxl(keys), fa, fb, hxl(contents))
+	c.Count("shared")
+	if O.n.Ping(RA.n.Self()) != nil || O.n.Ping(RB.n.Self()) != nil {
+		c.Emit("%s | err 9", head)
+		return
+	}
+	// exactly what GossipAndReturnPeers does: one contentList, one TransientOfferRequest per target around it
+	list := make([]*portalwire.ContentEntry, len(keys))
+	for i := range keys {
+		list[i] = &portalwire.ContentEntry{ContentKey: keys[i], Content: contents[i]}
+	}
+	reqFor := func() *portalwire.OfferRequest {
+		return &portalwire.OfferRequest{Kind: portalwire.TransientOfferRequestKind, Request: &portalwire.TransientOfferRequest{Contents: list}}
+	}
+	run := func(R *c09node) string {
+		reply, err := R.n.HandleOffer(O.n.Self(), O.n.Addr(), keys)
+		if err != nil {
+			return "err"
+		}
+		if _, err = O.n.ProcessOffer(R.n.Self(), reply, reqFor(), &portalwire.NoPermit{}); err != nil {
+			return "err"
+		}
+		wait := 4 * time.Second
+		if len(reply) >= 3 && reply[1] == 0 && reply[2] == 0 {
+			wait = 300 * time.Millisecond
+		}
+		select {
+		case el := <-R.q:
+			return hxl(el.ContentKeys) + "/" + hxl(el.Contents)
+		case <-time.After(wait):
+			return "none"
+		}
+	}
+	ea := run(RA)
+	eb := run(RB)
+	after := make([][]byte, len(list))
+	for i, e := range list {
+		after[i] = e.ContentKey
+	}
+	c.Emit("%s | ok enqA=%s enqB=%s list=%s", head, ea, eb, hxl(after))
+}
+
 // c09race: two version-1 offers of the same fresh in-range keys, back to back from one goroutine.
 func c09race(c *Ctx, key *ecdsa.PrivateKey, n int) {
 	R := c09newNode(c, []byte{0, 1}, 50, 8, 255)
@@ -953,6 +1011,8 @@ func c09replay(c *Ctx, lines []string) {
 			c09inflight2(c, atoi(f[1]), atoi(f[2]), unhx(f[3]))
 		case "inflightrl":
 			c09inflightRL(c, atoi(f[1]), unhx(f[2]))
+		case "shared":
+			c09shared(c, unhx(f[1]), unhxl(f[2]), f[3], f[4], unhxl(f[5]))
 		case "race":
 			c09race(c, key, atoi(f[1]))
 		}
@@ -1184,6 +1244,27 @@ func runC09(c *Ctx) {
 	}
 	for _, vv := range [][2]int{{0, 1}, {0, 0}, {1, 0}, {1, 1}} {
 		c09inflight2(c, vv[0], vv[1], append([]byte{0x63}, rg.Bytes(7)...))
+	}
+	// one gossip batch, two peers: A declines a key that sits before an accepted one, B accepts everything
+	for i, ownR := range [][]byte{{0, 1}, {0}} {
+		nk := 3 + i
+		keys := make([][]byte, 0, nk)
+		for len(keys) < nk { // all keys in range of one receiver: same top bit of the content id
+			k := append([]byte{0x65}, rg.Bytes(7)...)
+			if len(keys) == 0 || c09cid(k)[0]&0x80 == c09cid(keys[0])[0]&0x80 {
+				keys = append(keys, k)
+			}
+		}
+		contents := make([][]byte, nk)
+		for j := range contents {
+			contents[j] = append([]byte{byte(0xc0 + j)}, rg.Bytes(rg.Pick([]int{1, 5, 200}))...)
+		}
+		fa := []byte(strings.Repeat("1", nk))
+		fa[0] = '3' // stored on A: declined there, and it sits before accepted ones
+		if nk > 3 {
+			fa[2] = '3'
+		}
+		c09shared(c, ownR, keys, string(fa), strings.Repeat("1", nk), contents)
 	}
 	for va := 0; va <= 1; va++ {
 		c09inflightRL(c, va, append([]byte{0x64}, rg.Bytes(7)...))
